@@ -22,6 +22,7 @@ Macros == [
   bindq |-> [ps |-> <<"c">>, b |-> MQ(Let("t", Lit(10), Bin("+", Hole, Var("t"))))],
   lamq  |-> [ps |-> <<"c">>, b |-> MQ(App(Lam(<<"t">>, Bin("+", Hole, Var("t"))), <<Lit(10)>>))],
   pairq |-> [ps |-> <<"c">>, b |-> MQ(LetT(<<"t", "w">>, Tup(<<Hole, Lit(20)>>), Bin("+", Var("t"), Var("w"))))],
+  sel   |-> [ps |-> <<"v", "c">>, b |-> MQ(If(Splice(MLift(MV("v"))), Hole, Lit(7)))],
   twice |-> [ps |-> <<"c">>, b |-> MLet("q", MV("c"), MQ(Bin("-", Bin("*", Splice(MV("q")), Lit(3)), Splice(MV("q")))))]
 ]
 CtxBody(c, e) ==
@@ -37,12 +38,17 @@ CtxBody(c, e) ==
     [] c = "lam"   -> MacroApp("lamq", <<MQ(e)>>)
     [] c = "pair"  -> MacroApp("pairq", <<MQ(e)>>)
     [] c = "twice" -> MacroApp("twice", <<MQ(e)>>)                       \* code bound by a macro-stage let, spliced twice
+    \* a number computed at the macro stage, lifted, as the condition of a quoted if: negative, zero, positive
+    [] c = "selneg"  -> MacroApp("sel", <<MBin("-", MNum(1), MNum(3)), MQ(e)>>)
+    [] c = "selzero" -> MacroApp("sel", <<MBin("-", MNum(2), MNum(2)), MQ(e)>>)
+    [] c = "selpos"  -> MacroApp("sel", <<MBin("*", MNum(2), MNum(3)), MQ(e)>>)
     [] c = "nest"  -> Splice(MQ(Bin("+", Splice(MQ(e)), Lit(1))))        \* $(`{ $(`{ e }) + 1 })
 UsedMacros(c) == CASE c \in {"mcall", "scall"} -> {"wrap"}
                    [] c = "rec" -> {"rep"}
                    [] c = "hof" -> {"wrap", "app"}
                    [] c = "bind" -> {"bindq"} [] c = "lam" -> {"lamq"} [] c = "pair" -> {"pairq"}
                    [] c = "twice" -> {"twice"}
+                   [] c \in {"selneg", "selzero", "selpos"} -> {"sel"}
                    [] OTHER -> {}
 
 Target == IF Template = "dsp" THEN "dsp" ELSE "f"
